@@ -8,7 +8,7 @@ import json
 from ..common import b2f, f2b, WORK
 from ..gen import gen_tree, infosets_of
 from ..ops import CaseBuilder
-from ..solvers import rand_params, draws_for, rows_valid, INF
+from ..solvers import rand_params, draws_for, rows_valid, INF, alternating_tree
 from .. import harness
 
 SCOPE = {"solve", "named"}
@@ -69,6 +69,14 @@ def generate(rng, tier, n):
             params = [rng.choice([1.5, INF]), rng.choice([0.0, -INF, 0.5]), rng.choice([50.0, 100.0, 300.0]), rng.choice([INF, 0.0])]
             cases.append(build(cid, t, st, rng.choice(["full", "external"]), rng.choice([600, 1500]), 0.0, 1, params,
                                None, 0, {"scope": set(), "stress": "averaging-decay"}))
+        cid += 1
+    # contention: bushy alternating games solved by several workers with live samplers (every lock / borrow site of
+    # the multi-threaded solvers is hit from sibling subtrees at once)
+    for _ in range(max(6, n // 25)):
+        t, st = alternating_tree(rng, rng.choice([5, 6]), first=rng.choice([1, 2]), p_stop=0.05, share=0.6)
+        cases.append(build(cid, t, st, rng.choice(["external", "external", "sampled", "full"]), rng.choice([7, 50]), 0.0,
+                           rng.choice([2, 3, 5, 8]), rng.choice(["dcfr", None, "vanilla"]), None,
+                           rng.randrange(1, 1 << 30) if rng.random() < 0.5 else 0, {"stress": "contention"}))
         cid += 1
     while len(cases) < n:
         t, st = gen_tree(rng, max_nodes=rng.choice([6, 15, 40, 70]), max_depth=rng.choice([3, 5, 6]),
